@@ -617,12 +617,20 @@ CONF(c, o) ==
   THEN [ dom |-> TRUE, fails |-> { "DRIFT generator " \o (IF o.ret.kind = "panic" THEN "panicked (" \o o.ret.msg \o ")" ELSE "returned Ok") \o " but Structs.tla DocumentedPanic = " \o Str(ST!DocumentedPanic(c.S, c.opts)) } ] ELSE
   IF ~(HasS(c) /\ ParseOk(o) /\ o.ret.kind # "panic" /\ ~ValidatorRejects(c, o)) THEN NoVerdict ELSE
   LET S == c.S
+      typed == o.ret.kind = "err" /\ o.ret.err \in {"DuplicateBinding", "NonConsecutiveBindGroups"}
+      res == IF typed /\ o.ret.err = "DuplicateBinding" THEN [ kind |-> "dup", binding |-> o.ret.binding ] ELSE [ kind |-> "nonconsecutive" ]
       scans == [ i \in DOMAIN HkOf("bgd.scan") |-> << HkOf("bgd.scan")[i].group, HkOf("bgd.scan")[i].binding >> ]
       walks == [ i \in DOMAIN HkOf("stage.walk") |-> HkOf("stage.walk")[i].fn ]
       model == Run(S, StInit(S), CodeParams(TRUE))
   IN [ dom |-> TRUE, fails |->
        Chk(scans = ScanPrefix(S), "DRIFT scan order " \o ToJson(scans) \o " differs from the declaration-order scan of BindGroupData.tla " \o ToJson(ScanPrefix(S)))
        \cup Chk((Len(HkOf("bgd.density")) = 1) = ~BGD!HasDup(Decls(S)), "DRIFT density test executed = " \o Str(Len(HkOf("bgd.density"))) \o " with duplicates = " \o Str(BGD!HasDup(Decls(S))))
+       \cup (IF typed THEN
+               Chk(o.ret.display = BGD!ErrorText(res), "DRIFT error text " \o o.ret.display \o " differs from BindGroupData.tla " \o BGD!ErrorText(res))
+               \cup Chk(Has(o, "renders") /\ o.renders.to_string.ok /\ o.renders.to_string.text = BGD!ErrorText(res)
+                        /\ o.renders.to_string_with_path.ok /\ o.renders.to_string_with_path.text = BGD!ErrorTextWithPath(res, "shader.wgsl"),
+                        "DRIFT rendering of a typed error differs from `<path>: <text>`")
+             ELSE {})
        \cup (IF RetOk(o) THEN
                Chk(walks = model.log, "DRIFT function walks " \o ToJson(walks) \o " differ from Stages.tla " \o ToJson(model.log))
                \cup Chk([ i \in DOMAIN HkOf("stage.entry") |-> HkOf("stage.entry")[i].entry ] = [ i \in DOMAIN S.entries |-> S.entries[i].name ], "DRIFT entry order")
